@@ -100,6 +100,9 @@ add("F12", "C16", "fixed", "an absent nullable ID key failed with `missing field
 
 add("F8", "C12", "fixed", "mutually recursive fragments (A -> B -> A, 3-cycles) were emitted without indirection: rustc E0072",
     commit="fad7108", engine="B-generated")
+
+add("F11", "C20", "fixed", "introspect-schema created (truncated) the --output file before sending the request: every failure emptied an existing schema file",
+    commit="7ff877f", engine="C")
 out = os.path.join(os.path.dirname(os.path.dirname(os.path.abspath(__file__))), "known_findings.json")
 with open(out, "w") as f:
     json.dump({"comment": "written by tools/mk_known.py at authoring time; never written by a check", "findings": F}, f, indent=1)
